@@ -15,7 +15,7 @@ PROPERTY = 'C01'
 LEVEL = 'exploration'
 ORACLES = {'c01'}
 RULE = ('case = (stream in {bbb incl. 10 s text track, tears, synthetic irregular}, live-capable template (7), '
-        'option vector over depth/start/leeway/mup/timeline/drm/abr/acodec/base/events/patch/time, clock T on '
+        'option vector over depth/start/leeway/mup/timeline/drm/abr/acodec/base/events/patch/time/vcorrupt, clock T on '
         'sub-segment / loop-boundary / calendar / young-stream phase grids from seconds to 54 years after '
         'availabilityStartTime). For every Representation every advertised segment (all when <= 14, else first 4, '
         'last 4 and random inner ones) and the init segment are fetched at T. Non-trivial = the manifest was '
@@ -45,9 +45,12 @@ def build_env(ctx: ShardCtx, res: ShardResult):
     # a stream whose saved per-stream defaults differ from the global ones: manifest and media
     # handlers must resolve the same option values from (stream defaults + URL)
     env.add_defaults_stream()
+    # a stream as older databases hold it: the names of its media files carry the ".mp4" suffix
+    env.add_legacy_names_stream()
     try:
         from dlv import synth
         synth.add_synthetic_streams(env, ctx, res)
+        synth.add_structural_streams(env, ctx, res)
     except ImportError:
         pass
     index = StoredIndex(env)
@@ -57,13 +60,13 @@ def build_env(ctx: ShardCtx, res: ShardResult):
             tr = s.timing_reference
             if tr is None:
                 continue
-            sf = index.files.get((s.directory, tr.media_name))
+            sf = index.files.get((s.directory, tr.media_name.removesuffix('.mp4')))
             if sf is not None:
                 refs[s.directory] = Fraction(sf.duration, sf.timescale)
     return env, index, refs
 
 
-def gen_case(ctx: ShardCtx, streams: dict) -> dict:
+def gen_case(ctx: ShardCtx, streams: dict, corrupt: bool = False) -> dict:
     from dlv import workload as W
     from dlv.livewalk import LIVE_TEMPLATES, TIMELINE_TEMPLATES, DRM_TEMPLATES
     rng = ctx.rng
@@ -74,6 +77,22 @@ def gen_case(ctx: ShardCtx, streams: dict) -> dict:
         rng, manifest, manifest in TIMELINE_TEMPLATES,
         manifest in DRM_TEMPLATES and info.get('encrypted', False),
         seg_s=info.get('seg_s', 4.0), ref_s=info.get('ref_s', 40.0))
+    if corrupt and rng.random() < 0.2:
+        # corrupted video is still retrievable video. A time of day names the fragment that is live at that
+        # time on the day of availabilityStartTime (the manifest translates it to a segment number); plain
+        # numbers are taken as they are
+        import datetime as _dt
+        depth = int(params.get('depth', '60') or 60)
+        marks = []
+        for _ in range(rng.choice([1, 1, 2, 3])):
+            if rng.random() < 0.7:
+                back = rng.uniform(0, max(depth, 8) + 8)
+                marks.append((now - _dt.timedelta(seconds=back)).strftime('%H:%M:%SZ'))
+            else:
+                marks.append(str(rng.choice([1, 2, 3, 5, 10, 11, 100])))
+        params['vcorrupt'] = ','.join(marks)
+        if rng.random() < 0.4:
+            params['frames'] = str(rng.choice([1, 2, 5]))
     return {'stream': stream, 'manifest': manifest, 'mode': 'live', 'params': params, 'now': now.isoformat()}
 
 
@@ -114,7 +133,7 @@ def run_shard(ctx: ShardCtx, oracles=None, required_reach=True) -> ShardResult:
         else:
             n = ctx.scale(10**6, 10**7)
             for i in range(n):
-                case = gen_case(ctx, streams)
+                case = gen_case(ctx, streams, corrupt=(oracles or ORACLES) == {'c01'})
                 walk.run_case(case, ctx.rng)
                 if ctx.out_of_time():
                     break
